@@ -25,6 +25,9 @@ struct Item {
     malformed: bool,
     /// the declared outer length is out of (0, max]: must be refused without waiting for anything
     refuse_now: bool,
+    /// instead of raw bytes: an Encryption Response with a valid RSA layer whose secret has this length
+    #[serde(default)]
+    enc_secret_len: Option<usize>,
 }
 
 #[derive(Clone)]
@@ -109,7 +112,7 @@ fn render_with(id: i32, parts: &[Part], k: usize, replacement: Vec<u8>) -> Vec<u
 fn items_for(state: usize, max: i32, thorough: bool) -> Vec<Item> {
     let mut v = vec![];
     let mut push = |class: &str, bytes: Vec<u8>, eof: bool, malformed: bool, refuse_now: bool| {
-        v.push(Item { state, max, class: class.into(), bytes_hex: hex(&bytes), eof, malformed, refuse_now })
+        v.push(Item { state, max, class: class.into(), bytes_hex: hex(&bytes), eof, malformed, refuse_now, enc_secret_len: None })
     };
     // A. outer length alphabet: the prefix alone, then silence (out of range) or EOF (in range)
     let outer: Vec<(String, Vec<u8>, bool)> = vec![
@@ -184,6 +187,23 @@ fn items_for(state: usize, max: i32, thorough: bool) -> Vec<Item> {
             }
         }
     }
+    // frames whose declared length is shorter than the packet id that follows
+    for (class, bytes) in [
+        ("short-frame-long-id", vec![0x01, 0x80, 0x01]),
+        ("short-frame-long-id", vec![0x01, 0xff]),
+        ("short-frame-long-id", vec![0x02, 0x80, 0x80, 0x01]),
+        ("short-frame-long-id", vec![0x02, 0xff, 0xff, 0xff, 0xff, 0x0f, 0x00]),
+        ("short-frame-long-id", vec![0x04, 0xff, 0xff, 0xff, 0xff, 0x0f, 0x00, 0x00]),
+        ("short-frame-long-id", vec![0x05, 0xff, 0xff, 0xff, 0xff, 0xff, 0x00]),
+    ] {
+        push(class, bytes.clone(), true, true, false);
+        // without EOF: the handler may wait for more input but must not buffer unboundedly (checked by (iii))
+        if max <= 10_000 {
+            let mut more = bytes;
+            more.extend(std::iter::repeat_n(0x41, 300_000));
+            push("short-frame-long-id+flood", more, true, true, false);
+        }
+    }
     // F. RSA ciphertext shapes where an Encryption Response is expected
     if state == 6 {
         for n in [0usize, 1, 127, 128, 129, 256, 1024] {
@@ -191,6 +211,15 @@ fn items_for(state: usize, max: i32, thorough: bool) -> Vec<Item> {
             push("rsa-garbage", codec::frame(1, &body), true, true, false);
         }
     }
+    drop(push);
+    if state == 6 {
+        for n in [0usize, 1, 8, 15, 17, 24, 32, 100] {
+            v.push(Item { state, max, class: format!("valid-rsa-secret-len-{n}"), bytes_hex: String::new(), eof: true, malformed: true, refuse_now: false, enc_secret_len: Some(n) });
+        }
+    }
+    let mut push = |class: &str, bytes: Vec<u8>, eof: bool, malformed: bool, refuse_now: bool| {
+        v.push(Item { state, max, class: class.into(), bytes_hex: hex(&bytes), eof, malformed, refuse_now, enc_secret_len: None })
+    };
     // G. every [len][id][b] frame and two-byte bodies over a boundary alphabet, then EOF
     let ids: Vec<i32> = (0..=0x20).chain([0x7f]).collect();
     for id in &ids {
@@ -217,7 +246,10 @@ fn build(it: &Item) -> Case {
     case.cfg.auth_secret = Some(SECRET.to_vec());
     case.cfg.max_packet_length = it.max;
     case.script = prefix(it.state);
-    case.script.push(st(When::Idle, Act::Raw(common::unhex(&it.bytes_hex))));
+    match it.enc_secret_len {
+        Some(n) => case.script.push(st(When::Idle, Act::EncResponse(EncKind::SecretLen(n)))),
+        None => case.script.push(st(When::Idle, Act::Raw(common::unhex(&it.bytes_hex)))),
+    }
     if it.eof {
         case.script.push(st(When::With, Act::Eof));
     }
@@ -330,7 +362,7 @@ pub fn run(cli: Cli) -> ! {
     // number of clientbound packets the honest prefix alone produces, per state
     let baseline: Vec<usize> = (0..10)
         .map(|s| {
-            let mut c = build(&Item { state: s, max: 10_000, class: String::new(), bytes_hex: String::new(), eof: false, malformed: false, refuse_now: false });
+            let mut c = build(&Item { state: s, max: 10_000, class: String::new(), bytes_hex: String::new(), eof: false, malformed: false, refuse_now: false, enc_secret_len: None });
             c.script.truncate(prefix(s).len());
             c.horizon_ms = 1;
             crate::sim::run(&c).packets.len()
